@@ -1319,6 +1319,32 @@ impl ArchiveBuilder {
             // Set last offset
             sector_offsets[sector_count] = (data_start + sector_data.len()) as u32;
 
+            // No sector shrank (method "none" or incompressible data): the file is stored
+            // uncompressed. Uncompressed multi-sector files carry neither a sector offset
+            // table nor sector checksums in the MPQ format, and the reader takes them as a
+            // plain run of sectors, so write exactly that (encrypted sector by sector).
+            if flags & BlockEntry::FLAG_COMPRESS == 0 {
+                flags &= !BlockEntry::FLAG_SECTOR_CRC;
+                let mut plain = file_data.to_vec();
+                if *encrypt {
+                    flags |= BlockEntry::FLAG_ENCRYPTED;
+                    if *use_fix_key {
+                        flags |= BlockEntry::FLAG_FIX_KEY;
+                    }
+                    let key = self.calculate_file_key(
+                        archive_name,
+                        *file_pos,
+                        file_data.len() as u32,
+                        flags,
+                    );
+                    for (i, sector) in plain.chunks_mut(*sector_size).enumerate() {
+                        self.encrypt_data(sector, key.wrapping_add(i as u32));
+                    }
+                }
+                writer.write_all(&plain)?;
+                return Ok((plain.len(), flags));
+            }
+
             // Log CRC generation if enabled
             if self.generate_crcs {
                 log::debug!(
